@@ -22,6 +22,12 @@ HAZARD = True
 
 def split_cases(rng, tier):
     """data path: every instruction executed once through behavior() and once through the split functions"""
+    for prog, regs in rvgen.fault_schedule_programs():      # faults in every pipeline situation: same fault, same state in both modes
+        lines = rvgen.header("five", HAZARD, "-", "-", prog, regs, []) + ["sim.snap"]
+        for _ in range(14):
+            lines += ["sim.step", "sim.snap"]
+        lines += ["sim.run 200", "sim.snap"]
+        yield Case("sim-five", lines, None, {"mode": "five", "hazard": HAZARD, "prog": prog, "regs": regs, "pokes": [], "d": "-", "i": "-"})
     import props.c01 as c01
     for c in c01.rv1_cases(rng, tier):
         hdr = [l for l in c.lines if not l.startswith("sim.s")]
@@ -35,6 +41,12 @@ def cases(rng, tier):
         yield rvgen.sim_case(rng, "five", hazard=HAZARD, opts={"wide": i % 4 == 0}, trace=45, run=600, suite="sim-five")
     for i in range(n // 3):
         yield rvgen.chain_case(rng, "five", hazard=HAZARD, trace=30, run=300, dspec=rvgen.cache_spec(rng, "d", 0.3), suite="sim-five")
+    for prog, regs in rvgen.fault_schedule_programs():      # faults in every pipeline situation: same fault, same state in both modes
+        lines = rvgen.header("five", HAZARD, "-", "-", prog, regs, []) + ["sim.snap"]
+        for _ in range(14):
+            lines += ["sim.step", "sim.snap"]
+        lines += ["sim.run 200", "sim.snap"]
+        yield Case("sim-five", lines, None, {"mode": "five", "hazard": HAZARD, "prog": prog, "regs": regs, "pokes": [], "d": "-", "i": "-"})
     import props.c01 as c01
     for c in c01.cross_cases(rng, tier, "five", HAZARD):        # the stage-split implementations on the boundary cross product
         c.suite = "sim-five"
